@@ -15,6 +15,7 @@ PROP = "C02"
 BUF = 32768
 LIMITS = [0, 1024, 2048, 4096, 8192, 16384, 1 << 20]     # all present in Gen/C02.limiter_table (burst = 2*limit proved there)
 KNOWN_KEY = "limiter-burst-exceeded"
+RACE_KEY = "start-nil-forwarder-race"
 
 
 # ------------------------------------------------------------------------------------------------
@@ -276,7 +277,28 @@ def run(ctx, only_cases=None):
         cases += gen_bridge(rng, 1500 if thorough else 130, "bridge")
         cases += gen_bridge(rng, 300 if thorough else 30, "free")
         cases += gen_life(rng, 200 if thorough else 25)
-    outs = vlib.run_harness(binary, cases, timeout=1500)
+    # the start race can kill the harness process (nil dereference inside a goroutine of Bridge.Start): own process
+    race_cases = [c for c in cases if c["mode"] == "startrace"]
+    cases = [c for c in cases if c["mode"] != "startrace"]
+    if only_cases is None:
+        race_cases.append({"mode": "startrace", "budget_ms": 40000 if thorough else 4000})
+    race_trials = 0
+    for rc in race_cases:
+        try:
+            ro = vlib.run_harness(binary, [rc], timeout=600)[0]
+            race_trials += ro.get("nrd", 0)
+            if not ro["prop_ok"]:
+                ctx.violation(classify(rc, ro, True), "real tunnel.Bridge (startrace mode): %s" % ro.get("prop_msg"), {"case": rc, "observed": ro})
+        except vlib.Broken as b:
+            d = b.detail or ""
+            if "nil pointer dereference" in d and "CopyWithControl" in d and "Bridge).Start" in d:
+                ctx.violation(RACE_KEY, "real tunnel.Bridge.Start: with the source end already at EOF, direction 0 closed the bridge before direction 1 "
+                              "had read b.targetForwarder; CopyWithControl then called Read on a nil io.Reader and the process died "
+                              "(panic: nil pointer dereference in a goroutine of Bridge.Start)", {"case": rc, "stderr_tail": d[-1500:]})
+            else:
+                broken = broken or b
+    ctx.coverage["start_race_trials"] = race_trials
+    outs = vlib.run_harness(binary, cases, timeout=1500) if cases else []
 
     # (iii) the property's own predicate, evaluated by the harness on the real code's behaviour
     nfail, reported = 0, {}
